@@ -1,10 +1,11 @@
 """C13 - Monte Carlo iterations are independent draws from the requested distributions."""
 import math
+import re
 from collections import Counter
 
 from lib import framework as fw, mcharness as mc, qconv
 
-REQ = ['Model.MonteCarlo']
+REQ = ['Model.MonteCarlo', 'Model.MCRows', 'Model.MCSettings']
 META = {
     'props': 'Props/C13.v',
     'claimed': True,
@@ -53,13 +54,72 @@ def _q(x):
     return qconv.q(qconv.F(x))
 
 
+def _b(text):
+    return qconv.coq_bytes(text.encode('utf-8'))
+
+
+def _sl(items):
+    return '[' + '; '.join(items) + ']'
+
+
+def _opt(x):
+    return 'None' if x is None else f'(Some {_b(x)})'
+
+
 def _inp(run, **extra):
-    return dict({'settings': run.settings, 'W': run.W, 'mode': run.mode, 'program': run.program}, **extra)
+    d = {'settings': run.settings, 'W': run.W, 'mode': run.mode, 'program': run.program}
+    if run.program != 'HIP_RA_X' or run.base != mc.hiprax_base():
+        d['base'] = run.base
+    return dict(d, **extra)
+
+
+def settings_checks(ctx, run, bools):
+    """settings reader and '#' feature: model vs an independent reading (Coq), independent reading vs what the run did
+    (numpy call arguments: analyse), and the requested mean vs the value the simulator uses for that parameter"""
+    raw, outputs, iterations, output_file = mc.parse_settings_raw(run.settings_run)
+    bools.append((f'settings_agree {_sl(_b(ln) for ln in run.settings_run.splitlines(True))} {_sl(_sl(map(_b, f)) for f in raw)} '
+                  f'{_sl(map(_b, outputs))} {_opt(iterations)} {_opt(output_file)}',
+                  lambda: ctx.violate('corr', 'settings:reader', 'the modelled settings reader differs from the independent reading of the settings file',
+                                      inp=_inp(run), expected='read_settings (Model/MCSettings.v)', observed=[raw, outputs, iterations, output_file])))
+    base_lines = _sl(_b(ln) for ln in run.base.splitlines(True))
+    for f in raw:
+        if not any('#' in x for x in f):
+            continue
+        resolved, src = mc.resolve_hash(f, run.base)
+        bools.append((f'opt_strings_eqb (replace_mean {_sl(map(_b, f))} {base_lines}) (Some {_sl(map(_b, resolved))})',
+                      lambda f=f, resolved=resolved: ctx.violate('corr', 'settings:mean-replacement', "the modelled '#' replacement differs from the independent one",
+                                                                 inp=_inp(run), expected=resolved, observed='replace_mean (Model/MCSettings.v)')))
+        sim = mc.simulated_value(run.base, f[0])
+        bools.append((f'opt_string_eqb (simulated_value {_b(f[0])} {base_lines}) {_opt(sim)}',
+                      lambda f=f, sim=sim: ctx.violate('corr', 'settings:simulated-value', 'the modelled parameter lookup of the simulator differs from the independent one',
+                                                       inp=_inp(run), expected=sim, observed='simulated_value (Model/MCSettings.v)')))
+        used = next((x for x, y in zip(resolved, f) if '#' in y), None)
+        try:
+            same = sim is not None and float(used) == float(sim)
+        except ValueError:
+            same = False
+        if src is not None and not same:
+            # is `sim` really what the simulator uses?  ask it: run the base file alone and read the echoed parameter
+            rep = mc.resimulate(ctx, [(run.program, run.base, [])])[0]
+            echo = mc.report_tokens(rep, [f[0]])[0] if rep else None
+            try:
+                if echo is not None and abs(float(echo) - float(sim)) > 1e-6 * abs(float(sim)):
+                    ctx.violate('corr', 'settings:simulator-lookup', f'the simulator echoes {echo} for {f[0]}, the last-occurrence lookup gives {sim}',
+                                inp=_inp(run), expected=sim, observed=echo)
+            except ValueError:
+                pass
+            prefix_hit = src.split(',')[0].strip() != f[0]
+            ctx.violate('property', 'mean-replacement:' + ('prefix-match' if prefix_hit else 'first-occurrence'),
+                        f"INPUT {f[0]} asks for the base-file value ('#') of the parameter; the distribution is given {used.strip()!r}, read from the line "
+                        f'{src.strip()[:60]!r}, while the simulator uses {sim!r} for {f[0]}', inp=_inp(run), expected=sim, observed=used.strip())
+    ctx.count('settings-reader', evaluations=1 + sum(1 for f in raw if any('#' in x for x in f)),
+              nontrivial_keys=[tuple(tuple(f[:2]) for f in raw)], hash_inputs={sum(1 for f in raw if any('#' in x for x in f)): 1})
 
 
 def analyse(ctx, run, bools):
     """Oracles of one observed run.  Boolean Coq terms are appended to `bools` as (term, on_false) for one kernel pass."""
-    inputs, outputs, iterations = mc.parse_settings(run.settings)
+    inputs, outputs, iterations = mc.parse_settings(run.settings, run.base)
+    settings_checks(ctx, run, bools)
     tasks, ok = run.tasks, run.ok_tasks
     header, rows, _ = mc.parse_result(run.result_text or '\n')
     part = f'{run.mode}-runs'
@@ -82,16 +142,20 @@ def analyse(ctx, run, bools):
                           'corr', 'dispatch:' + ','.join(c for c, _ in calls),
                           'numpy calls of a work package differ from the modelled dispatch of the INPUT lines',
                           inp=_inp(run), expected='expected_calls (Model/MonteCarlo.v) of the INPUT lines', observed=[list(c) for c in calls])))
-    # --- supports, on the values recorded in the rows
-    nvals = 0
-    for r in rows:
-        for (name, val), (iname, word, fields) in zip(r['ins'], [i for i in inputs if mc.dist_of(i[1])]):
+    # --- supports: EVERY recorded sample - the draws of every work package (failed or row-less ones included), else the rows
+    nvals, drawn = 0, Counter()
+    sampled = [i for i in inputs if mc.dist_of(i[1])]
+    records = ([[(n, v) for (n, _, _), (_, v) in zip(sampled, mc.task_entries(t))] for t in tasks if t['trace']]
+               or [r['ins'] for r in rows])
+    for rec in records:
+        for (name, val), (iname, word, fields) in zip(rec, sampled):
             d = mc.dist_of(word)
             try:
                 term = f'in_support {mc.DISTS[d]} [{"; ".join(_q(x) for x in fields[:3 if d == "triangular" else 2])}] {_q(float(val))}'
             except (ValueError, OverflowError):
                 term = 'false'
             nvals += 1
+            drawn[d] += 1
             bools.append((term if name == iname else 'false', lambda name=name, val=val, d=d, fields=fields: ctx.violate(
                 'property', f'support:{d}', f'sampled value {name} = {val} is outside the support of {d}{tuple(fields)}',
                 inp=_inp(run), expected=f'in_support {d} {fields}', observed=val)))
@@ -147,7 +211,7 @@ def analyse(ctx, run, bools):
                 inp=_inp(run), expected=f'predicted_classes {disc}', observed=observed)))
     sig = (run.W, tuple(sorted({mc.dist_of(w) for _, w, _ in inputs})))
     ctx.count(part, evaluations=nvals + len(rows) + len(seen), nontrivial_keys=[sig] if len(set(pids)) > 1 or run.W == 1 else [],
-              workers={len(set(pids)): 1}, iterations={iterations: 1})
+              workers={len(set(pids)): 1}, iterations={iterations: 1}, samples_by_distribution=dict(drawn))
     ctx.sample(part, {'W': run.W, 'settings': run.settings, 'rows': len(rows), 'ok': len(ok), 'workers_used': len(set(pids))})
     return rows, ok
 
@@ -179,17 +243,20 @@ def stale_lock_check(ctx, run, rows, ok, bools):
 
 def pool_specs(ctx):
     rnd = ctx.rng
+    every = [(n,) + (mc.HIPRAX_HASH_INPUTS.get(n) or vs)[0] for n, vs in mc.HIPRAX_INPUTS.items()]   # all five distributions, '#' fields
     if ctx.quick:
-        return [(W, 40, mc.make_settings(rnd, 40)) for W in (1, 2, 4, 16)]
-    specs = [(W, n, mc.make_settings(rnd, n)) for W in (1, 2, 3, 4, 8, 16) for n in (40, 300)]
-    return specs + [(rnd.choice([2, 3, 5, 7, 12, 16]), rnd.choice([7, 60, 150, 400]), mc.make_settings(rnd, 1)) for _ in range(40)]
+        return ([(W, 40, mc.make_settings(rnd, 40, hash_share=0.3)) for W in (1, 2, 16)]
+                + [(4, 40, mc.make_settings(rnd, 40, inputs=every, n_outputs=2, output_file='{JOBDIR}/named_by_settings.txt'))])
+    specs = [(W, n, mc.make_settings(rnd, n, hash_share=0.3)) for W in (1, 2, 3, 4, 8, 16) for n in (40, 300)]
+    specs.append((4, 60, mc.make_settings(rnd, 60, inputs=every, n_outputs=2, output_file='{JOBDIR}/named_by_settings.txt')))
+    return specs + [(rnd.choice([2, 3, 5, 7, 12, 16]), rnd.choice([7, 60, 150, 400]), mc.make_settings(rnd, 1, hash_share=0.3)) for _ in range(40)]
 
 
 def correspondence(ctx, proofs_ok=True):
     bools = []
     specs = mc.corpus_specs('C13')      # seeds first: fork-copy witness and the two forced lock interleavings
     for k, (W, n, st) in enumerate(pool_specs(ctx)):
-        specs.append({'name': f'pool{k}', 'W': W, 'st': st.rsplit('ITERATIONS', 1)[0] + f'ITERATIONS, {n}\n'})
+        specs.append({'name': f'pool{k}', 'W': W, 'st': re.sub(r'ITERATIONS, \d+', f'ITERATIONS, {n}', st)})
     for run in mc.run_jobs(ctx, specs, parallel=2):
         rows, ok = analyse(ctx, run, bools)
         if run.mode == 'lockrace':
@@ -224,7 +291,7 @@ def _moments(word, f):
 
 def moments_check(ctx, run, rows):
     """requested distributions: sample mean of every INPUT within 8 standard errors (false alarm probability < 1e-14)"""
-    inputs = [i for i in mc.parse_settings(run.settings)[0] if mc.dist_of(i[1])]
+    inputs = [i for i in mc.parse_settings(run.settings, run.base)[0] if mc.dist_of(i[1])]
     draws = [mc.task_entries(t) for t in run.tasks if t['trace']] or [r['ins'] for r in rows]   # failed iterations drew too
     for col, (name, word, f) in enumerate(inputs):
         xs = [float(d[col][1]) for d in draws if len(d) == len(inputs)]
